@@ -92,6 +92,17 @@ _ipv6_unspecified = socket.inet_pton(socket.AF_INET6, "::")
 _ipv4_unspecified = socket.inet_pton(socket.AF_INET6, "::ffff:0.0.0.0")
 
 
+def _zone_is_part_of_address(host):
+    """Whether the address is only unique together with its zone (RFC 4007):
+    link-local unicast (fe80::/10), interface-local and link-local multicast
+    (ffx1::/16, ffx2::/16) -- the addresses for which Linux fills in
+    sin6_scope_id on reception."""
+    packed = ipaddress.IPv6Address(host.split("%", 1)[0]).packed
+    if packed[0] == 0xFE and packed[1] & 0xC0 == 0x80:
+        return True
+    return packed[0] == 0xFF and packed[1] & 0x0F in (1, 2)
+
+
 class InterfaceOnlyPktinfo(bytes):
     """A thin wrapper over bytes that represent a pktinfo built just to select
     an outgoing interface.
@@ -107,7 +118,9 @@ class UDP6EndpointAddress(interfaces.EndpointAddress):
     opaque pktinfo data.
 
     For purposes of equality (and thus hashing), the local address is *not*
-    checked. Neither is the scopeid that is part of the socket address.
+    checked. The scopeid that is part of the socket address is not hashed, and
+    compared only where it is part of the peer's identity: two link-local
+    addresses that both name a zone, and different ones, are different peers.
 
     >>> interface = type("FakeMessageInterface", (), {})
     >>> if1_name = socket.if_indextoname(1)
@@ -147,7 +160,19 @@ class UDP6EndpointAddress(interfaces.EndpointAddress):
         return hash(self.sockaddr[:-1])
 
     def __eq__(self, other):
-        return self.sockaddr[:-1] == other.sockaddr[:-1]
+        if self.sockaddr[:-1] != other.sockaddr[:-1]:
+            return False
+        mine, theirs = self.sockaddr[3], other.sockaddr[3]
+        if mine == theirs or not mine or not theirs:
+            return True
+        # Both name a zone, and not the same one. That makes them different
+        # endpoints exactly where the zone is part of the address: link-local
+        # unicast and interface- or link-local multicast addresses, for which
+        # the kernel reports the zone of every received datagram (and of every
+        # error). Everywhere else a zone only selects the outgoing interface;
+        # datagrams from such an address come in with zone 0, so this branch
+        # is about an application naming one global address with two zones.
+        return not _zone_is_part_of_address(self.sockaddr[0])
 
     def __repr__(self):
         return "<%s %s%s>" % (
